@@ -70,17 +70,41 @@ func linearOf(v ssa.Value, depth int) (Linear, bool) {
 	return Linear{}, false
 }
 
-func stripConv(v ssa.Value) ssa.Value {
-	for {
+func stripConv(v ssa.Value) ssa.Value { return stripConvD(v, 0) }
+
+func stripConvD(v ssa.Value, depth int) ssa.Value {
+	for d := 0; d < 12; d++ {
 		switch x := v.(type) {
 		case *ssa.Convert:
 			v = x.X
 		case *ssa.ChangeType:
 			v = x.X
+		case *ssa.Phi:
+			// what a `(buf, err)` helper leaves once inlined: nil on its error
+			// returns, the buffer otherwise
+			if depth > 3 {
+				return v
+			}
+			var one ssa.Value
+			for _, e := range x.Edges {
+				if IsNilConst(e) || e == ssa.Value(x) {
+					continue
+				}
+				s := stripConvD(e, depth+1)
+				if one != nil && one != s {
+					return v
+				}
+				one = s
+			}
+			if one == nil {
+				return v
+			}
+			v = one
 		default:
 			return v
 		}
 	}
+	return v
 }
 
 // C07: remember-me cookies: single use, one user, half-auth only.
